@@ -224,7 +224,7 @@ def build(tier, seed, verbose=True):
             p = os.path.join(CACHE, d)
             if d != key and os.path.isfile(os.path.join(p, "TIER")):
                 try:
-                    if open(os.path.join(p, "TIER")).read().strip() == tier:
+                    if open(os.path.join(p, "TIER")).read().strip() == "%s %s" % (tier, seed):
                         shutil.rmtree(p, ignore_errors=True)
                 except Exception:
                     pass
@@ -232,7 +232,7 @@ def build(tier, seed, verbose=True):
         shutil.rmtree(out)
     os.makedirs(out)
     with open(os.path.join(out, "TIER"), "w") as f:
-        f.write(tier)
+        f.write("%s %s" % (tier, seed))
     t0 = time.time()
     harvested = harvest_literals()
     crates = corpus.build_positive(tier, seed, harvested)
